@@ -600,6 +600,14 @@ func isoBuild(cfg isoCfg) (*fiber.App, *isoSink) {
 		return c.Status(202).SendString(c.BaseURL() + " " + c.Hostname())
 	}))
 
+	// looks at the (possibly content-encoded) body and binds it
+	app.Post("/payload/:id", w(func(c fiber.Ctx) error {
+		body := c.Body()
+		var st bindQ
+		err := c.Bind().Body(&st)
+		return c.SendString(fmt.Sprintf("payload %s: %d bytes, %+v, %s", c.Params("id"), len(body), st, errStr(err)))
+	}))
+
 	app.Get("/getonly", w(func(c fiber.Ctx) error { return c.SendString("getonly") }))
 
 	// path / method override inside a handler
@@ -752,6 +760,7 @@ func isoBuild(cfg isoCfg) (*fiber.App, *isoSink) {
 			bm["body.struct"] = map[string]any{"v": fmt.Sprintf("%+v", st), "err": errStr(err)}
 		}
 		v["bind"] = canon(bm)
+		v["body"] = canon(map[string]any{"body": string(c.Body()), "raw-length": len(c.BodyRaw()), "again": string(c.Req().Body())})
 
 		// the multi-named struct, from the ONE source the probe request names
 		if src := c.Query("xsrc"); src != "" {
